@@ -30,6 +30,29 @@ const COMMON_ASSUMPTIONS: &[&str] = &[
     "oracles use an independent re-implementation of digests, signature checks, quorum and leader election",
 ];
 
+fn f(rep: &RunReport, name: &str) -> u64 {
+    rep.faults.get(name).cloned().unwrap_or(0)
+}
+
+fn spec(
+    id: &'static str,
+    gen: fn(u64, bool) -> Scenario,
+    gen_rule: &'static str,
+    nontrivial: fn(&RunReport) -> bool,
+    nontrivial_rule: &'static str,
+    required_probes: &'static [&'static str],
+    quick_runs: usize,
+    thorough_runs: usize,
+) -> PropSpec {
+    PropSpec { id, level: "exploration", gen, gen_rule, nontrivial, nontrivial_rule, required_probes, quick_runs, thorough_runs, quick_wall_s: 90.0, thorough_wall_s: 1200.0, assumptions: COMMON_ASSUMPTIONS }
+}
+
+const C12_RULE: &str = "Scenario seeds are SplitMix64(VERIF_SEED, property, k); each expands into a cluster scenario biased to the mempool dissemination path: equal, skewed and dominant-member stakes, small batches, many transactions, acknowledgement (reply) direction of seeded mempool links held for a while or for ever, mempool links cut or slowed, connection resets, occasional slow leaders.";
+const C11_RULE: &str = "Scenario seeds are SplitMix64(VERIF_SEED, property, k); each expands into a 4-node cluster on a healthy network where two nodes receive transactions of sizes 0, 1, 8, 9, batch_size-1, batch_size, batch_size+1, several batch sizes and random, from three client connections each, with arrival gaps 0, sub-millisecond, exactly max_batch_delay, max_batch_delay +- 1 ms and random; batch_size in {1,9,50,200,1000}, max_batch_delay in {5,20,50,100} ms per node.";
+const C13_RULE: &str = "Scenario seeds are SplitMix64(VERIF_SEED, property, k); each expands into a cluster scenario without crashes or view-change faults (timeouts 2-4 s, latencies below 2% of them): client load over all nodes, and for seeded (node, peers, interval) triples the mempool links of a node are cut so that it misses batch broadcasts and must fetch the batches when blocks referencing them arrive (first from the proposer, on failure from random peers); wall-clock jumps.";
+const C06_RULE: &str = "Scenario seeds are SplitMix64(VERIF_SEED, property, k); each expands into a cluster of 4..7 nodes (equal and unequal stakes, optional per-node timeout skew 0.7-1.5x) in which authorities within the stake budget f crash at arbitrary instants (at boot, before, at, after stabilisation), messages suffer heavy-tail delays and finite stalls before a seeded stabilisation instant (nothing is lost between live nodes, all boot together), and afterwards every message takes less than a twelfth of the smallest round timeout.";
+const C07_RULE: &str = "Scenario seeds are SplitMix64(VERIF_SEED, property, k); each expands into a cluster of 4..7 nodes where one seeded node is cut off (all its connections reset and refused) for a seeded interval while the others keep committing, with or without slow-leader view changes inside the gap; after the heal one peer's consensus port may stay mute towards it, and the wall clock may jump.";
+
 pub fn specs() -> Vec<PropSpec> {
     vec![
         PropSpec {
@@ -42,24 +65,46 @@ pub fn specs() -> Vec<PropSpec> {
             required_probes: &["commit"],
             quick_runs: 160,
             thorough_runs: 6000,
-            quick_wall_s: 60.0,
-            thorough_wall_s: 900.0,
+            quick_wall_s: 90.0,
+            thorough_wall_s: 1200.0,
             assumptions: COMMON_ASSUMPTIONS,
         },
-        PropSpec {
-            id: "C02",
-            level: "exploration",
-            gen: |s, t| crate::gen::chaos("C02", s, t),
-            gen_rule: CLUSTER_RULE,
-            nontrivial: |r| p(r, "C02.commit-across-round-gap") > 0,
-            nontrivial_rule: "some node delivered a block whose round is more than one above the previously delivered block (a commit across a view change)",
-            required_probes: &["commit", "C02.commit-across-round-gap"],
-            quick_runs: 160,
-            thorough_runs: 6000,
-            quick_wall_s: 60.0,
-            thorough_wall_s: 900.0,
-            assumptions: COMMON_ASSUMPTIONS,
-        },
+        spec("C02", |s, t| crate::gen::chaos("C02", s, t), CLUSTER_RULE, |r| p(r, "C02.commit-across-round-gap") > 0,
+            "some node delivered a block whose round is more than one above the previously delivered block (a commit across a view change)",
+            &["commit", "C02.commit-across-round-gap", "C05.ancestor-commit"], 160, 6000),
+        spec("C03", |s, t| crate::gen::chaos("C03", s, t), CLUSTER_RULE, |r| p(r, "C03.vote-on-wire") > 0 && p(r, "C10.timeout-on-wire") > 0,
+            "votes and timeouts of honest nodes both appeared on the wire (the vote/timeout interplay was exercised)",
+            &["C03.vote-on-wire", "C10.timeout-on-wire", "C19.qc-emitted"], 160, 6000),
+        spec("C05", |s, t| crate::gen::chaos("C05", s, t), CLUSTER_RULE, |r| p(r, "C05.ancestor-commit") > 0 || p(r, "C02.commit-across-round-gap") > 0,
+            "a commit delivered uncommitted ancestors or crossed a round gap (so chains with gaps at either position of the 2-chain occurred)",
+            &["C05.direct-commit", "C05.ancestor-commit"], 160, 6000),
+        spec("C08", |s, t| crate::gen::chaos("C08", s, t), CLUSTER_RULE, |r| p(r, "C08.vote-nonempty-payload") > 0 && p(r, "C13.batch-request") > 0,
+            "a node voted for a block with a non-empty payload and some node had to request a missing batch",
+            &["C08.vote-nonempty-payload", "C08.commit-nonempty-payload", "C13.batch-request"], 160, 6000),
+        spec("C09", |s, t| crate::gen::chaos("C09", s, t), CLUSTER_RULE, |r| p(r, "C09.rotation-window") > 0 && p(r, "C10.timeout-on-wire") > 0,
+            "n consecutive voted rounds were observed and at least one timeout occurred",
+            &["C09.proposal", "C09.rotation-window"], 160, 6000),
+        spec("C10", |s, t| crate::gen::chaos("C10", s, t), CLUSTER_RULE, |r| p(r, "C19.tc-broadcast") > 0,
+            "a timeout certificate was assembled and broadcast by an honest node (rounds advanced through the timeout path)",
+            &["C10.evidence-checked", "C10.timeout-on-wire", "C19.tc-broadcast"], 160, 6000),
+        spec("C19", |s, t| crate::gen::chaos("C19", s, t), CLUSTER_RULE, |r| p(r, "C19.tc-broadcast") > 0 && p(r, "C19.qc-emitted") > 0,
+            "honest nodes emitted both QCs and TCs",
+            &["C19.qc-emitted", "C19.tc-broadcast"], 160, 6000),
+        spec("C12", crate::gen::c12, C12_RULE, |r| p(r, "C12.own-batch-stored") > 0 && (f(r, "mute-ack") + f(r, "mempool-cut") + f(r, "mempool-delay") + f(r, "reset")) > 0,
+            "a node released an own batch and a fault on the acknowledgement path (held replies, cut or slowed mempool link, reset) actually fired",
+            &["C12.own-batch-stored", "C12.ack-seen", "C12.quorum-checked"], 160, 6000),
+        spec("C11", crate::gen::c11, C11_RULE, |r| p(r, "C11.own-batch") >= 2,
+            "at least two batches were sealed",
+            &["C11.own-batch", "C11.batch-stored", "tx.delivered"], 200, 8000),
+        spec("C13", crate::gen::c13, C13_RULE, |r| p(r, "commit") > 0 && p(r, "tx.delivered") > 0 && p(r, "C13.batch-request") > 0,
+            "transactions were submitted, blocks committed, and some node had to fetch a missing batch",
+            &["tx.delivered", "C13.batch-request", "C13.batch-served-by-helper"], 120, 4000),
+        spec("C06", crate::gen::c06, C06_RULE, |r| f(r, "crash") > 0 && p(r, "C19.tc-broadcast") > 0,
+            "an authority crashed and a timeout certificate was formed",
+            &["commit", "C19.tc-broadcast"], 160, 6000),
+        spec("C07", crate::gen::c07, C07_RULE, |r| p(r, "C07.lagger-was-behind") > 0 && p(r, "C07.sync-request") > 0,
+            "the reconnected node was behind the others' committed round and sync requests were sent",
+            &["C07.lagger-was-behind", "C07.sync-reply"], 100, 3000),
     ]
 }
 
